@@ -44,6 +44,7 @@ type Root struct {
 	Idx  int    // parameter index for RParam
 	Name string // global / freevar / parameter name, or reason for unknown
 	Path string
+	Fn   *ssa.Function // RFreeVar: the closure that captured the variable
 }
 
 func (r Root) String() string {
@@ -318,7 +319,7 @@ func (e *Eff) memRoots(v ssa.Value, suffix string, out map[string]Root, seen map
 		}
 		add(out, Root{Kind: RParam, Idx: idx, Name: x.Name()}.with(suffix))
 	case *ssa.FreeVar:
-		add(out, Root{Kind: RFreeVar, Name: x.Name()}.with(suffix))
+		add(out, Root{Kind: RFreeVar, Name: x.Name(), Fn: x.Parent()}.with(suffix))
 	case *ssa.ChangeType:
 		e.memRoots(x.X, suffix, out, seen)
 	case *ssa.ChangeInterface:
@@ -454,7 +455,7 @@ func (e *Eff) loadRoots(ld *ssa.UnOp, suffix string, out map[string]Root, seen m
 		add(out, Root{Kind: RGlobal, Name: a.Name()}.with(suffix))
 	case *ssa.FreeVar:
 		// captured variable: its content belongs to the enclosing function's variable
-		add(out, Root{Kind: RFreeVar, Name: a.Name()}.with(suffix))
+		add(out, Root{Kind: RFreeVar, Name: a.Name(), Fn: a.Parent()}.with(suffix))
 	default:
 		e.addrRoots(addr, suffix, out, seen)
 	}
@@ -802,7 +803,7 @@ func (e *Eff) effectsOf(fn *ssa.Function) (summary []Effect, direct []Effect, un
 					continue // assignment to a local variable cell
 				}
 				if fv, ok := x.Addr.(*ssa.FreeVar); ok {
-					emit([]Root{{Kind: RFreeVar, Name: fv.Name()}}, "assignment to captured variable", x, "")
+					emit([]Root{{Kind: RFreeVar, Name: fv.Name(), Fn: fv.Parent()}}, "assignment to captured variable", x, "")
 					continue
 				}
 				out := map[string]Root{}
@@ -914,7 +915,15 @@ func (e *Eff) callEffects(fn *ssa.Function, c ssa.CallInstruction, emit func([]R
 					actual := args[ef.Root.Idx]
 					emit(e.mapParamEffect(actual, ef.Root.Path, c), what, c, via)
 				case RFreeVar:
-					// effect on a variable captured by the callee closure: owned by whoever created it
+					// effect on a variable captured by a closure: owned by whoever created the
+					// closure. When that is the function being summarised (it made the closure and
+					// the effect happens during a call it makes — directly, or through a helper or
+					// library function that calls the closure back), the write goes to the variable
+					// the closure was bound to here.
+					if roots, ok := e.rebindFreeVar(c.Parent(), ef.Root); ok {
+						emit(roots, what, c, via)
+						continue
+					}
 					emit([]Root{ef.Root}, what, c, via)
 				default:
 					emit([]Root{ef.Root}, what, c, via)
@@ -976,4 +985,89 @@ func Forget(p *Program) {
 	effMu.Lock()
 	delete(effCache, p)
 	effMu.Unlock()
+}
+
+// rebindFreeVar: root is a variable captured by closure root.Fn; if fn created
+// every instance of that closure it can have (all MakeClosure instructions of
+// root.Fn are in fn), the root is re-rooted at what fn bound the variable to.
+func (e *Eff) rebindFreeVar(fn *ssa.Function, root Root) ([]Root, bool) {
+	if root.Fn == nil || fn == nil || root.Fn.Parent() != fn {
+		return nil, false
+	}
+	idx := -1
+	for i, fv := range root.Fn.FreeVars {
+		if fv.Name() == root.Name {
+			idx = i
+		}
+	}
+	if idx < 0 {
+		return nil, false
+	}
+	var out []Root
+	n := 0
+	Instrs(fn, func(in ssa.Instruction) {
+		mc, ok := in.(*ssa.MakeClosure)
+		if !ok || mc.Fn != ssa.Value(root.Fn) || idx >= len(mc.Bindings) {
+			return
+		}
+		n++
+		b := mc.Bindings[idx]
+		// the binding is the address of the captured variable (an Alloc of fn, or fn's own
+		// free variable when closures nest)
+		switch x := b.(type) {
+		case *ssa.Alloc:
+			if root.Path == "" {
+				// the variable cell itself: a local of this call (even when it lives on the heap)
+				out = append(out, Root{Kind: RLocal})
+				break
+			}
+			// something reachable from the variable's content: owned by whatever was stored into it
+			stored := 0
+			var scan func(g *ssa.Function)
+			scan = func(g *ssa.Function) {
+				Instrs(g, func(in2 ssa.Instruction) {
+					st, isSt := in2.(*ssa.Store)
+					if !isSt {
+						return
+					}
+					target := false
+					if st.Addr == ssa.Value(x) {
+						target = true
+					}
+					if fv, isFV := st.Addr.(*ssa.FreeVar); isFV && fv.Name() == root.Name && g != fn {
+						target = true
+					}
+					if !target {
+						return
+					}
+					stored++
+					for _, r := range e.MemRoots(st.Val) {
+						if g != fn && (r.Kind == RLocal || r.Kind == RParam) {
+							// stored by a sibling closure from its own frame: give up precision
+							out = append(out, Root{Kind: RUnknown, Name: "captured " + root.Name}.with(root.Path))
+							continue
+						}
+						out = append(out, r.with(root.Path))
+					}
+				})
+				for _, a := range g.AnonFuncs {
+					scan(a)
+				}
+			}
+			scan(fn)
+			if stored == 0 {
+				out = append(out, Root{Kind: RFresh}.with(root.Path))
+			}
+		case *ssa.FreeVar:
+			out = append(out, Root{Kind: RFreeVar, Name: x.Name(), Fn: x.Parent()}.with(root.Path))
+		default:
+			for _, r := range e.MemRoots(b) {
+				out = append(out, r.with(root.Path))
+			}
+		}
+	})
+	if n == 0 {
+		return nil, false
+	}
+	return out, true
 }
